@@ -64,6 +64,7 @@ func main() {
 	genAnchorsTo := flag.String("gen-anchors", "", "write the structural fingerprints of the current tree (rename tolerance) to this file and exit")
 	flag.Parse()
 	if *genAnchorsTo != "" {
+		noFold = true
 		w, err := loadVariant(*repo, "native", nil)
 		if err != nil {
 			fmt.Println(err)
